@@ -1,7 +1,709 @@
-//! C22 — not implemented yet.
+//! C22 — completion suggestions are consistent with the term dictionary.
+//! Engine: inputmc suggest — every corpus of <= N small documents over the tokens
+//! {ab, abc, abd, b, ba} x every assignment of the documents to commits (segment layouts, no
+//! deletions) x every prefix of every token (+ a non-prefix, + an upper-case spelling) x size 1..3
+//! x {no fuzzy, fuzzy max_edits {1,2} x prefix_length {0,1} x min_length {1,3}} (+ two fuzzy
+//! requests with an explicit small scan cap, max_expansions 6 > the 5 indexed terms).
+//!
+//! Oracle, recomputed from the public analyzer's tokens of the documents: at most `size` options;
+//! no duplicates; every option is an indexed term that starts with the analyzed prefix (fuzzy:
+//! edit distance <= max_edits and sharing the first prefix_length characters); doc_freq = number of
+//! documents containing the term; options ordered by score descending then text; two runs of the
+//! same request agree; the size-s answer is the head of the size-3 answer; the answer is the same
+//! (up to score tie classes, rel. tol. 1e-5) for every segment layout of the same corpus.
+//! The score *value* is not pinned by the documentation and is only observed (coverage).
+
+use std::collections::{BTreeMap, BTreeSet};
+use std::sync::atomic::{AtomicBool, AtomicU64, Ordering};
+
+use parking_lot::Mutex;
+use rayon::prelude::*;
+use searchlite_core::api::types::SearchRequest;
+use serde_json::{json, Value};
+
+use vcore::ev::Reporter;
+use vcore::inp::*;
+use vcore::world::*;
+
 use crate::Ctx;
 
-pub fn run(_ctx: &Ctx) -> i32 {
-  eprintln!("C22: check not implemented");
-  2
+const TOKENS: [&str; 5] = ["ab", "abc", "abd", "b", "ba"];
+const PREFIXES: [&str; 8] = ["a", "ab", "abc", "abd", "b", "ba", "c", "Ab"];
+const MAX_SIZE: usize = 3;
+
+/// Genuine defect (collect_completion_candidates): both completion paths count every (segment,
+/// matching term) pair against the scan cap and stop scanning the remaining segments once the
+/// count is reached, so with far fewer distinct matching terms than the cap, doc_freq / score /
+/// membership depend on the segment layout. Fuzzy path: cap = max(min(max_expansions, 256), size),
+/// max_expansions defaulting to 50. Plain prefix path: cap = clamp(5 * size, 64, 256).
+const SIG_CAP_FUZZY: &str = "C22-fuzzy-scan-cap-counts-segment-term-pairs";
+const SIG_CAP_PREFIX: &str = "C22-prefix-scan-cap-counts-segment-term-pairs";
+const DEFAULT_MAX_EXPANSIONS: usize = 50;
+const PREFIX_SCAN_MIN: usize = 64;
+/// family C: k copies of the document "ab abc", one per commit (and as one segment)
+const MANY_SEGMENTS: std::ops::RangeInclusive<usize> = 24..=34;
+
+#[derive(Clone, Debug, PartialEq)]
+struct Fz {
+  max_edits: usize,
+  prefix_length: usize,
+  min_length: usize,
+  /// explicit max_expansions (None: library default 50, far above anything reachable here)
+  max_expansions: Option<usize>,
+}
+
+#[derive(Clone, Debug)]
+struct Spec {
+  name: String,
+  prefix: String,
+  size: usize,
+  fuzzy: Option<Fz>,
+  /// index of the spec with the same prefix / fuzzy and size MAX_SIZE
+  covering: usize,
+}
+
+impl Spec {
+  fn to_json(&self) -> Value {
+    let mut v = json!({"type": "completion", "field": "body", "prefix": self.prefix, "size": self.size});
+    if let Some(f) = &self.fuzzy {
+      let mut fz = json!({"max_edits": f.max_edits, "prefix_length": f.prefix_length, "min_length": f.min_length});
+      if let Some(mx) = f.max_expansions {
+        fz["max_expansions"] = json!(mx);
+      }
+      v["fuzzy"] = fz;
+    }
+    v
+  }
+}
+
+fn fuzzy_configs() -> Vec<Option<Fz>> {
+  let mut out = vec![None];
+  for me in [1usize, 2] {
+    for pl in [0usize, 1] {
+      for ml in [1usize, 3] {
+        out.push(Some(Fz { max_edits: me, prefix_length: pl, min_length: ml, max_expansions: None }));
+      }
+    }
+  }
+  // scan-cap slice: 5 indexed terms < cap 6
+  out.push(Some(Fz { max_edits: 1, prefix_length: 0, min_length: 1, max_expansions: Some(6) }));
+  out.push(Some(Fz { max_edits: 2, prefix_length: 0, min_length: 1, max_expansions: Some(6) }));
+  out
+}
+
+fn specs() -> Vec<Spec> {
+  let mut out: Vec<Spec> = Vec::new();
+  for (fi, fz) in fuzzy_configs().into_iter().enumerate() {
+    for (pi, p) in PREFIXES.iter().enumerate() {
+      let base = out.len();
+      for size in 1..=MAX_SIZE {
+        out.push(Spec { name: format!("f{fi:02}p{pi}s{size}"), prefix: p.to_string(), size, fuzzy: fz.clone(), covering: base + MAX_SIZE - 1 });
+      }
+    }
+  }
+  out
+}
+
+fn build_request(specs: &[Spec]) -> SearchRequest {
+  let mut m = serde_json::Map::new();
+  for s in specs {
+    m.insert(s.name.clone(), s.to_json());
+  }
+  // README's suggest example uses "limit": 0, which IndexReader::search rejects ("must set limit > 0")
+  req(json!({"query": {"type": "match_all"}, "limit": 1, "return_stored": false, "suggest": Value::Object(m)}))
+}
+
+/// Document shapes: one token, or an unordered pair of tokens (a repeated token included).
+fn shapes() -> Vec<String> {
+  let mut out: Vec<String> = TOKENS.iter().map(|t| t.to_string()).collect();
+  for i in 0..TOKENS.len() {
+    for j in i..TOKENS.len() {
+      out.push(format!("{} {}", TOKENS[i], TOKENS[j]));
+    }
+  }
+  out
+}
+
+#[derive(Clone, Debug, PartialEq)]
+struct Opt {
+  text: String,
+  score: f32,
+  df: u64,
+}
+
+type Resp = BTreeMap<String, Vec<Opt>>;
+
+fn run_request(reader: &searchlite_core::api::IndexReader, r: &SearchRequest) -> Result<Resp, String> {
+  let res = search_caught(reader, r)?;
+  Ok(res.suggest.into_iter().map(|(k, v)| (k, v.options.into_iter().map(|o| Opt { text: o.text, score: o.score, df: o.doc_freq }).collect())).collect())
+}
+
+/// Optimal string alignment distance (Levenshtein + adjacent transposition). The documentation
+/// does not say whether a transposition is one edit; the more lenient metric is used for the
+/// membership demand so that either reading is accepted.
+fn osa(a: &str, b: &str) -> usize {
+  let a: Vec<char> = a.chars().collect();
+  let b: Vec<char> = b.chars().collect();
+  let (n, m) = (a.len(), b.len());
+  let mut d = vec![vec![0usize; m + 1]; n + 1];
+  for i in 0..=n {
+    d[i][0] = i;
+  }
+  for j in 0..=m {
+    d[0][j] = j;
+  }
+  for i in 1..=n {
+    for j in 1..=m {
+      let cost = if a[i - 1] == b[j - 1] { 0 } else { 1 };
+      let mut v = (d[i - 1][j] + 1).min(d[i][j - 1] + 1).min(d[i - 1][j - 1] + cost);
+      if i > 1 && j > 1 && a[i - 1] == b[j - 2] && a[i - 2] == b[j - 1] {
+        v = v.min(d[i - 2][j - 2] + 1);
+      }
+      d[i][j] = v;
+    }
+  }
+  d[n][m]
+}
+
+fn lev(a: &str, b: &str) -> usize {
+  let a: Vec<char> = a.chars().collect();
+  let b: Vec<char> = b.chars().collect();
+  let mut prev: Vec<usize> = (0..=b.len()).collect();
+  for i in 1..=a.len() {
+    let mut cur = vec![i; b.len() + 1];
+    for j in 1..=b.len() {
+      let cost = if a[i - 1] == b[j - 1] { 0 } else { 1 };
+      cur[j] = (prev[j] + 1).min(cur[j - 1] + 1).min(prev[j - 1] + cost);
+    }
+    prev = cur;
+  }
+  prev[b.len()]
+}
+
+fn char_prefix(s: &str, n: usize) -> String {
+  s.chars().take(n).collect()
+}
+
+/// Is `term` an admissible option for the analyzed prefix `p` under `fz`?
+fn admissible(p: &str, term: &str, fz: Option<&Fz>) -> bool {
+  match fz {
+    None => term.starts_with(p),
+    Some(f) => osa(p, term) <= f.max_edits && term.starts_with(&char_prefix(p, f.prefix_length.min(p.chars().count()))),
+  }
+}
+
+/// Everything the oracle knows about one corpus (layout independent).
+struct Corpus {
+  /// shape index per doc, sorted
+  shapes: Vec<usize>,
+  /// term -> number of docs containing it
+  df: BTreeMap<String, u64>,
+}
+
+struct Shared {
+  shape_texts: Vec<String>,
+  /// analyzer tokens (set) per shape
+  shape_terms: Vec<BTreeSet<String>>,
+  specs: Vec<Spec>,
+  /// analyzed prefix per spec
+  analyzed: Vec<String>,
+  request: SearchRequest,
+}
+
+fn shared() -> Shared {
+  let sch = schema(schema_text_default());
+  let an = sch.build_analyzers().expect("analyzers");
+  let ia = an.index_analyzer("body").expect("index analyzer");
+  let sa = an.search_analyzer("body").expect("search analyzer");
+  let shape_texts = shapes();
+  let shape_terms = shape_texts.iter().map(|t| ia.analyze(t).into_iter().map(|t| t.text).collect()).collect();
+  let specs = specs();
+  let analyzed = specs.iter().map(|s| sa.analyze(&s.prefix).last().map(|t| t.text.clone()).unwrap_or_else(|| s.prefix.clone())).collect();
+  let request = build_request(&specs);
+  Shared { shape_texts, shape_terms, specs, analyzed, request }
+}
+
+fn corpus_of(sh: &Shared, shapes: &[usize]) -> Corpus {
+  let mut df = BTreeMap::new();
+  for s in shapes {
+    for t in &sh.shape_terms[*s] {
+      *df.entry(t.clone()).or_insert(0u64) += 1;
+    }
+  }
+  Corpus { shapes: shapes.to_vec(), df }
+}
+
+fn mk_world(sh: &Shared, order: &[usize], layout: &[usize]) -> World {
+  let docs: Vec<Value> = order.iter().enumerate().map(|(i, s)| json!({"_id": id_of(i), "body": sh.shape_texts[*s]})).collect();
+  World::new("text", schema_text_default(), docs).with_layout(layout.to_vec())
+}
+
+/// Distinct permutations of a sorted multiset.
+fn permutations(items: &[usize]) -> Vec<Vec<usize>> {
+  fn rec(rest: &mut Vec<usize>, cur: &mut Vec<usize>, out: &mut Vec<Vec<usize>>) {
+    if rest.is_empty() {
+      out.push(cur.clone());
+      return;
+    }
+    let mut last = None;
+    for i in 0..rest.len() {
+      if Some(rest[i]) == last {
+        continue;
+      }
+      last = Some(rest[i]);
+      let x = rest.remove(i);
+      cur.push(x);
+      rec(rest, cur, out);
+      cur.pop();
+      rest.insert(i, x);
+    }
+  }
+  let mut out = Vec::new();
+  rec(&mut items.to_vec(), &mut Vec::new(), &mut out);
+  out
+}
+
+/// All layouts of a corpus: ordered partitions of the documents into commits. The order of
+/// documents inside one commit is not varied (each chunk is kept in non-decreasing shape order).
+/// The first layout is the single-commit reference.
+fn layouts_of(shapes: &[usize]) -> Vec<(Vec<usize>, Vec<usize>)> {
+  let n = shapes.len();
+  let mut out = Vec::new();
+  for comp in compositions(n) {
+    for perm in permutations(shapes) {
+      let mut ok = true;
+      let mut i = 0;
+      for &k in &comp {
+        if perm[i..i + k].windows(2).any(|w| w[0] > w[1]) {
+          ok = false;
+          break;
+        }
+        i += k;
+      }
+      if ok {
+        out.push((perm, comp.clone()));
+      }
+    }
+  }
+  out
+}
+
+/// Run-length description of a list ("24 x \"ab abc\"").
+fn rle<T: PartialEq + std::fmt::Debug>(items: &[T]) -> String {
+  let mut parts = Vec::new();
+  let mut i = 0;
+  while i < items.len() {
+    let mut j = i;
+    while j < items.len() && items[j] == items[i] {
+      j += 1;
+    }
+    if j - i > 2 {
+      parts.push(format!("{} x {:?}", j - i, items[i]));
+    } else {
+      for x in &items[i..j] {
+        parts.push(format!("{x:?}"));
+      }
+    }
+    i = j;
+  }
+  format!("[{}]", parts.join(", "))
+}
+
+fn opts_str(o: &[Opt]) -> String {
+  let parts: Vec<String> = o.iter().map(|x| format!("{}(score {}, doc_freq {})", x.text, x.score, x.df)).collect();
+  format!("[{}]", parts.join(", "))
+}
+
+/// Tie-class tolerant equality of two option lists for the same request; `cover` is the
+/// size-MAX_SIZE answer of the side `a` belongs to (only consulted when the texts differ).
+fn same_options(a: &[Opt], b: &[Opt], cover: &[Opt]) -> bool {
+  if a.len() != b.len() {
+    return false;
+  }
+  for (x, y) in a.iter().zip(b) {
+    if !approx(x.score, y.score, 1e-5) {
+      return false;
+    }
+    if x.text == y.text {
+      if x.df != y.df {
+        return false;
+      }
+      continue;
+    }
+    // different text at this rank: only acceptable inside a score tie class of the covering list
+    match cover.iter().find(|c| c.text == y.text) {
+      Some(c) if c.df == y.df && approx(c.score, x.score, 1e-5) => {}
+      _ => return false,
+    }
+  }
+  true
+}
+
+struct SpecFail {
+  spec: usize,
+  sig: Option<&'static str>,
+  what: String,
+}
+
+/// Number of (segment, admissible term) pairs in this layout, and of distinct admissible terms.
+fn pair_count(sh: &Shared, order: &[usize], layout: &[usize], p: &str, fz: Option<&Fz>) -> (usize, usize) {
+  // the code applies Levenshtein; for the classifier the pair count must mirror what is scanned
+  let adm = |t: &str| match fz {
+    None => t.starts_with(p),
+    Some(f) => lev(p, t) <= f.max_edits && t.starts_with(&char_prefix(p, f.prefix_length.min(p.chars().count()))),
+  };
+  let mut pairs = 0;
+  let mut all = BTreeSet::new();
+  let mut i = 0;
+  for &k in layout {
+    let mut seg: BTreeSet<&String> = BTreeSet::new();
+    for s in &order[i..i + k] {
+      seg.extend(sh.shape_terms[*s].iter());
+    }
+    for t in seg {
+      if adm(t) {
+        pairs += 1;
+        all.insert(t.clone());
+      }
+    }
+    i += k;
+  }
+  (pairs, all.len())
+}
+
+struct Stats {
+  nontrivial: u64,
+  incomplete: u64,
+  score_model_disagree: u64,
+  listings: BTreeSet<String>,
+}
+
+/// Judge one world's responses. `only`: restrict to one spec (replay).
+#[allow(clippy::too_many_arguments)]
+fn judge(sh: &Shared, corpus: &Corpus, order: &[usize], layout: &[usize], resp: &Resp, resp2: &Resp, reference: Option<&Resp>, only: Option<usize>, stats: &mut Stats) -> Vec<SpecFail> {
+  let mut fails = Vec::new();
+  let empty: Vec<Opt> = Vec::new();
+  for (si, spec) in sh.specs.iter().enumerate() {
+    if only.is_some_and(|o| o != si) {
+      continue;
+    }
+    let p = sh.analyzed[si].as_str();
+    let fz = spec.fuzzy.as_ref();
+    let Some(o) = resp.get(&spec.name) else {
+      fails.push(SpecFail { spec: si, sig: None, what: "the response has no entry for this suggest request".into() });
+      continue;
+    };
+    // classifier for the scan-cap defect: fewer distinct matching terms than the cap, but this
+    // layout has more (segment, matching term) pairs than the effective cap, so the scan stops
+    // before the last segments
+    let cap_sig = || -> Option<&'static str> {
+      let (eff, sig) = match fz {
+        None => ((5 * MAX_SIZE).max(PREFIX_SCAN_MIN), SIG_CAP_PREFIX),
+        Some(f) => {
+          if p.chars().count() < f.min_length {
+            return None;
+          }
+          (f.max_expansions.unwrap_or(DEFAULT_MAX_EXPANSIONS).max(MAX_SIZE), SIG_CAP_FUZZY)
+        }
+      };
+      let (pairs, terms) = pair_count(sh, order, layout, p, fz);
+      if terms < eff && pairs > eff {
+        Some(sig)
+      } else {
+        None
+      }
+    };
+    let candidates: Vec<&String> = corpus.df.keys().filter(|t| admissible(p, t, fz)).collect();
+    let mut bad: Option<String> = None;
+    if o.len() > spec.size {
+      bad = Some(format!("{} options returned for size {}", o.len(), spec.size));
+    }
+    if bad.is_none() {
+      let mut seen = BTreeSet::new();
+      for x in o {
+        if !seen.insert(&x.text) {
+          bad = Some(format!("option {:?} appears twice", x.text));
+          break;
+        }
+        let Some(df) = corpus.df.get(&x.text) else {
+          bad = Some(format!("option {:?} is not an indexed term of the field (terms {:?})", x.text, corpus.df.keys().collect::<Vec<_>>()));
+          break;
+        };
+        if !admissible(p, &x.text, fz) {
+          bad = Some(match fz {
+            None => format!("option {:?} does not start with the analyzed prefix {p:?}", x.text),
+            Some(f) => format!("option {:?} is not within {} edits of {p:?} sharing its first {} characters", x.text, f.max_edits, f.prefix_length),
+          });
+          break;
+        }
+        if x.df != *df {
+          bad = Some(format!("option {:?} has doc_freq {} but {} of the {} documents contain the term", x.text, x.df, df, corpus.shapes.len()));
+          break;
+        }
+        if !x.score.is_finite() {
+          bad = Some(format!("option {:?} has a non-finite score {}", x.text, x.score));
+          break;
+        }
+      }
+    }
+    if bad.is_none() {
+      for w in o.windows(2) {
+        if w[1].score > w[0].score || (w[1].score == w[0].score && w[1].text <= w[0].text) {
+          bad = Some("options are not ordered by score descending then text".into());
+          break;
+        }
+      }
+    }
+    if bad.is_none() {
+      let o2 = resp2.get(&spec.name).unwrap_or(&empty);
+      if !same_options(o, o2, resp.get(&sh.specs[spec.covering].name).unwrap_or(&empty)) {
+        bad = Some(format!("a second run of the same request on the same reader returned {}", opts_str(o2)));
+      }
+    }
+    if bad.is_none() && spec.size < MAX_SIZE {
+      let cover = resp.get(&sh.specs[spec.covering].name).unwrap_or(&empty);
+      let head = &cover[..cover.len().min(spec.size)];
+      if !same_options(head, o, cover) {
+        bad = Some(format!("it is not the head of the size {MAX_SIZE} answer {} of the same index", opts_str(cover)));
+      }
+    }
+    let mut sig = None;
+    if bad.is_some() {
+      sig = cap_sig();
+    }
+    if bad.is_none() {
+      if let Some(r) = reference {
+        let ro = r.get(&spec.name).unwrap_or(&empty);
+        let rcover = r.get(&sh.specs[spec.covering].name).unwrap_or(&empty);
+        if !same_options(ro, o, rcover) {
+          bad = Some(format!("the same corpus committed as one segment answers {}", opts_str(ro)));
+          sig = cap_sig();
+        }
+      }
+    }
+    // observations (never deciding)
+    if !o.is_empty() && !candidates.is_empty() && candidates.len() < corpus.df.len() {
+      stats.nontrivial += 1;
+    }
+    if o.len() < spec.size.min(candidates.len()) {
+      stats.incomplete += 1;
+    }
+    if bad.is_none() {
+      for x in o {
+        let df = corpus.df[&x.text] as f32;
+        let model = match fz {
+          None => df,
+          Some(_) => df / (lev(p, &x.text) as f32 + 1.0),
+        };
+        if !approx(model, x.score, 1e-5) {
+          stats.score_model_disagree += 1;
+          break;
+        }
+      }
+    }
+    if stats.listings.len() < 4096 {
+      stats.listings.insert(o.iter().map(|x| format!("{}:{}", x.text, x.df)).collect::<Vec<_>>().join(","));
+    }
+    if let Some(b) = bad {
+      fails.push(SpecFail { spec: si, sig, what: format!("{} -> {}: {}", spec.to_json(), opts_str(o), b) });
+    }
+  }
+  fails
+}
+
+fn case_json(sh: &Shared, order: &[usize], layout: &[usize], spec: usize) -> Value {
+  json!({"engine": "inputmc-suggest", "world": mk_world(sh, order, layout).to_json(), "shape_order": order, "layout": layout, "spec": spec, "suggest": sh.specs[spec].to_json()})
+}
+
+struct Failure {
+  key: (usize, usize, usize),
+  sig: Option<&'static str>,
+  order: Vec<usize>,
+  layout: Vec<usize>,
+  spec: usize,
+  what: String,
+}
+
+pub fn run(ctx: &Ctx) -> i32 {
+  let mut rep = Reporter::new("C22", ctx.tier, "exploration");
+  let quick = ctx.tier.is_quick();
+  let sh = shared();
+  if let Some(path) = &ctx.replay {
+    rep.set_replaying(true);
+    let v: Value = serde_json::from_slice(&std::fs::read(path).expect("replay file")).expect("json");
+    let cs = &v["case"];
+    let order: Vec<usize> = cs["shape_order"].as_array().expect("shape_order").iter().map(|x| x.as_u64().unwrap() as usize).collect();
+    let layout: Vec<usize> = cs["layout"].as_array().expect("layout").iter().map(|x| x.as_u64().unwrap() as usize).collect();
+    let spec = cs["spec"].as_u64().expect("spec") as usize;
+    let mut sorted = order.clone();
+    sorted.sort();
+    let corpus = corpus_of(&sh, &sorted);
+    let run = || {
+      let ref_idx = mk_world(&sh, &sorted, &[sorted.len()]).build();
+      let ref_resp = run_request(&ref_idx.reader().expect("reader"), &sh.request).expect("reference request");
+      let idx = mk_world(&sh, &order, &layout).build();
+      let reader = idx.reader().expect("reader");
+      let (a, b) = match (run_request(&reader, &sh.request), run_request(&reader, &sh.request)) {
+        (Ok(a), Ok(b)) => (a, b),
+        (Err(e), _) | (_, Err(e)) => return Some(format!("request failed: {e}")),
+      };
+      let mut st = Stats { nontrivial: 0, incomplete: 0, score_model_disagree: 0, listings: BTreeSet::new() };
+      judge(&sh, &corpus, &order, &layout, &a, &b, Some(&ref_resp), Some(spec), &mut st).into_iter().next().map(|f| f.what)
+    };
+    let (a, b) = (run(), run());
+    if a.is_some() != b.is_some() {
+      vcore::ev::machinery_failure("NONDETERMINISM on replay");
+    }
+    return match a {
+      Some(w) => {
+        println!("VIOLATION property=C22 replay={path}\n  what: {w}");
+        1
+      }
+      None => {
+        println!("replay: no violation");
+        0
+      }
+    };
+  }
+
+  let max_docs = if quick { 3 } else { 4 };
+  let nshapes = sh.shape_texts.len();
+  // family C first (so that a wall-clock cap never drops it), then family A simplest first
+  let many_shape = sh.shape_texts.iter().position(|t| t == "ab abc").expect("shape");
+  let mut corpora: Vec<Vec<usize>> = MANY_SEGMENTS.map(|k| vec![many_shape; k]).collect();
+  let family_c = corpora.len();
+  for n in 1..=max_docs {
+    corpora.extend(multisets(nshapes, n));
+  }
+  let n4_start = corpora.iter().position(|c| c.len() == 4).unwrap_or(corpora.len());
+  let deadline = if quick { 35.0 } else { 800.0 };
+  let timed_out = AtomicBool::new(false);
+  let worlds = AtomicU64::new(0);
+  let evals = AtomicU64::new(0);
+  let nontrivial = AtomicU64::new(0);
+  let incomplete = AtomicU64::new(0);
+  let score_disagree = AtomicU64::new(0);
+  let multi_segment_worlds = AtomicU64::new(0);
+  let listings: Mutex<BTreeSet<String>> = Mutex::new(BTreeSet::new());
+  let failures: Mutex<Vec<Failure>> = Mutex::new(Vec::new());
+  // memory bound: failures are kept individually for corpora of <= 3 documents, family C, anything
+  // unexplained, and up to STORE_CAP overall; the rest is only counted per class
+  const STORE_CAP: u64 = 20_000;
+  let stored = AtomicU64::new(0);
+  let dropped: Mutex<BTreeMap<Option<&'static str>, u64>> = Mutex::new(BTreeMap::new());
+  let nspecs = sh.specs.len() as u64;
+
+  corpora.par_iter().enumerate().for_each(|(ci, shapes)| {
+    if rep.elapsed_s() > deadline {
+      timed_out.store(true, Ordering::Relaxed);
+      return;
+    }
+    let corpus = corpus_of(&sh, shapes);
+    let mut st = Stats { nontrivial: 0, incomplete: 0, score_model_disagree: 0, listings: BTreeSet::new() };
+    let mut reference: Option<Resp> = None;
+    // (the first 1200 corpora of the 4-document layer are always kept so that the reported minimal
+    // witness does not depend on scheduling)
+    let early = ci < family_c || shapes.len() <= 3 || ci < n4_start + 1200;
+    let lays = if ci < family_c { vec![(shapes.clone(), vec![shapes.len()]), (shapes.clone(), vec![1; shapes.len()])] } else { layouts_of(shapes) };
+    // failures of family C sort after those of family A (their worlds are larger)
+    let ci = if ci < family_c { corpora.len() + ci } else { ci };
+    for (wi, (order, layout)) in lays.into_iter().enumerate() {
+      let idx = mk_world(&sh, &order, &layout).build();
+      let reader = idx.reader().expect("reader");
+      worlds.fetch_add(1, Ordering::Relaxed);
+      if layout.len() > 1 {
+        multi_segment_worlds.fetch_add(1, Ordering::Relaxed);
+      }
+      let (a, b) = match (run_request(&reader, &sh.request), run_request(&reader, &sh.request)) {
+        (Ok(a), Ok(b)) => (a, b),
+        (Err(e), _) | (_, Err(e)) => {
+          failures.lock().push(Failure { key: (ci, wi, 0), sig: None, order, layout, spec: 0, what: format!("the batched suggest request failed: {e}") });
+          continue;
+        }
+      };
+      evals.fetch_add(nspecs, Ordering::Relaxed);
+      let fs = judge(&sh, &corpus, &order, &layout, &a, &b, reference.as_ref(), None, &mut st);
+      if !fs.is_empty() {
+        for f in fs {
+          if f.sig.is_none() || early || stored.load(Ordering::Relaxed) < STORE_CAP {
+            stored.fetch_add(1, Ordering::Relaxed);
+            failures.lock().push(Failure { key: (ci, wi, f.spec), sig: f.sig, order: order.clone(), layout: layout.clone(), spec: f.spec, what: f.what });
+          } else {
+            *dropped.lock().entry(f.sig).or_insert(0) += 1;
+          }
+        }
+      } else if layout.len() > 1 && !rep.sample_full() {
+        let s = &sh.specs[sh.specs.len() / 2];
+        rep.sample(json!({"docs": order.iter().map(|s| sh.shape_texts[*s].clone()).collect::<Vec<_>>(), "layout": layout, "suggest": s.to_json(),
+          "options": a.get(&s.name).map(|o| opts_str(o))}));
+      }
+      if wi == 0 {
+        reference = Some(a);
+      }
+    }
+    nontrivial.fetch_add(st.nontrivial, Ordering::Relaxed);
+    incomplete.fetch_add(st.incomplete, Ordering::Relaxed);
+    score_disagree.fetch_add(st.score_model_disagree, Ordering::Relaxed);
+    let mut l = listings.lock();
+    if l.len() < 4096 {
+      l.extend(st.listings);
+    }
+  });
+  rep.add_evals(evals.load(Ordering::Relaxed));
+
+  let mut fails = std::mem::take(&mut *failures.lock());
+  fails.sort_by(|a, b| a.key.cmp(&b.key));
+  let mut by_sig: BTreeMap<String, u64> = BTreeMap::new();
+  let mut first_of_sig: BTreeMap<String, Value> = BTreeMap::new();
+  for (i, f) in fails.iter().enumerate() {
+    let label = f.sig.unwrap_or("unexplained").to_string();
+    *by_sig.entry(label.clone()).or_insert(0) += 1;
+    let docs: Vec<&str> = f.order.iter().map(|s| sh.shape_texts[*s].as_str()).collect();
+    let what = format!("docs {} committed in chunks {}: {}", rle(&docs), rle(&f.layout), f.what);
+    let first = !first_of_sig.contains_key(&label);
+    if first {
+      first_of_sig.insert(label, json!({"docs": rle(&docs), "layout": rle(&f.layout), "what": f.what}));
+    }
+    let cj = if i < 64 || first { case_json(&sh, &f.order, &f.layout, f.spec) } else { Value::Null };
+    rep.fail(f.sig, &what, cj);
+  }
+  for (sig, n) in dropped.lock().iter() {
+    *by_sig.entry(sig.unwrap_or("unexplained").to_string()).or_insert(0) += n;
+    for _ in 0..*n {
+      rep.fail(*sig, "further case of the same class (counted, not stored individually)", Value::Null);
+    }
+  }
+
+  let to = timed_out.load(Ordering::Relaxed);
+  let nl = listings.lock().len();
+  if nl < 2 {
+    vcore::ev::machinery_failure("C22: fewer than 2 distinct outcomes observed (vacuous)");
+  }
+  let cov = vcore::cov! {
+    "distinct_nontrivial" => nontrivial.load(Ordering::Relaxed),
+    "rule" => "corpora = every multiset of 1..=N documents over 20 shapes (one token, or an unordered pair incl. a repeated token, over {ab, abc, abd, b, ba}); worlds = corpus x every ordered partition of its documents into commits (document order inside one commit not varied), no deletions; cases = world x 8 prefixes {a, ab, abc, abd, b, ba, c (non-prefix), Ab (upper-case)} x size 1..3 x 11 fuzzy settings (none; max_edits {1,2} x prefix_length {0,1} x min_length {1,3}; max_edits {1,2} with max_expansions 6), each case run twice. Family C: k = 24..=34 copies of the document \"ab abc\" committed one per segment vs. as one segment, same requests (2k (segment, term) pairs cross the default fuzzy cap 50 at k = 26 and the prefix scan cap 64 at k = 33 while only 2 terms match). A case is non-trivial when it returns at least one option and the admissible terms are a non-empty proper subset of the indexed terms.",
+    "max_docs" => max_docs,
+    "corpora" => corpora.len(),
+    "family_c_corpora" => family_c,
+    "worlds" => worlds.load(Ordering::Relaxed),
+    "multi_segment_worlds" => multi_segment_worlds.load(Ordering::Relaxed),
+    "requests_per_world" => nspecs,
+    "cases_with_fewer_options_than_min_size_admissible_terms" => incomplete.load(Ordering::Relaxed),
+    "cases_whose_scores_differ_from_df_times_1_over_distance_plus_1" => score_disagree.load(Ordering::Relaxed),
+    "distinct_observed_outcomes" => nl,
+    "failures_by_signature" => by_sig,
+    "first_witness_by_signature" => first_of_sig,
+    "cap_hit" => if to { Some(format!("wall budget {deadline}s")) } else { None },
+    "exhaustive" => !to,
+  };
+  rep.finish(
+    cov,
+    vec![
+      "the score value is not defined by README/docs (its example shows score 42.0 for doc_freq 3); only ordering, determinism, truncation- and layout-consistency of scores are demanded; agreement with df/(distance+1) is reported as coverage".into(),
+      "completeness (returning min(size, admissible terms) options) is not demanded: the statement says 'at most size'; e.g. fuzzy with a prefix shorter than min_length returns nothing. Counted in coverage".into(),
+      "fuzzy membership accepts a transposition as one edit (docs do not say which edit distance)".into(),
+      "the empty prefix, multi-token prefixes, keyword fields, deletions and the non-fuzzy scan cap (>= 64 entries) are left out".into(),
+      "max_expansions is only varied as 6 (> the 5 indexed terms) or left at its default 50: the statement promises layout independence while fewer terms than the scan cap match, which holds for every case here (at most 5 terms)".into(),
+    ],
+  )
 }
